@@ -89,6 +89,7 @@ def C08():
 C04_CLASSES = r'^(copy|typeset|newold|bounds|weights|iter-|query-|functional|enum-cases|fixpoint|panic)'
 C05_CLASSES = r'^(count|root|equality|visible|fresh|define-|panic)'
 C07_CLASSES = r'^(resume-|until-)'
+C01_CLASSES = r'^(rule-|functional)'
 C03_CLASSES = r'^(history-|fixpoint)'
 C06_CLASSES = r'^grow'
 
@@ -102,7 +103,8 @@ def gen_native():
                        'per type) followed by close, plus seeded random longer sequences; checked after every call: invariant, are_equal_ == the equivalence generated by the equate_ '
                        'calls (before the first close), root_ idempotent and in class, inserted tuples visible once while no equate_ happened since the last close, define_ returns the '
                        'existing value or a fresh element; after every close: iterators duplicate-free and canonical, one representative per class, point queries == iterators and '
-                       'invariant under equal arguments, functions single-valued, closing again changes nothing; C07: close_until with conditions "k-th evaluation" (k = 1..3) and '
+                       'invariant under equal arguments, functions single-valued, closing again changes nothing; C01: for every flat rule of the program (parsed from the comments of the emitted module) and every '
+                       'assignment of canonical elements matching its premise in the iterators, every conclusion holds (tuple present / elements equal / function defined); C07: close_until with conditions "k-th evaluation" (k = 1..3) and '
                        '"iter_<rel> yields >= n tuples": the return value equals the condition in the state returned, false only in a closed state, and after every close() / close_until() == false '
                        'the model is isomorphic (fixing the caller\'s elements) to a fresh model on which the same assertions were replayed and closed once; C03: the same comparison against a fresh '
                        'model that received the assertions in reverse order, each twice; C06: close()/close_until() allocate no element when the program has no non-surjective conclusion; '
@@ -130,6 +132,88 @@ def C07():
             '"exactly the closed model that a direct close() would have produced" is decided up to renaming of derived elements: a fresh model replays the assertions (no close_until, no intermediate close), is closed once, and an isomorphism is built from the caller\'s handles by propagation through the function graphs',
             '"contains only elements, tuples and equalities of the free model" at an early return is covered only through the resumption statement (anything not in the free model survives into the final comparison)',
         ] + ['GEN-close (proof part): ' + a for a in genclose.ASSUMPTIONS],
+    }
+
+
+def C01():
+    gn = gen_native()
+    return {
+        'level': 'exploration', 'parts': [gn], 'samples': [], 'own_classes': C01_CLASSES,
+        'assumptions': [
+            'bounded: programs are the probe theories of /verif/probes (7 programs, 43 flat rules incl. the implicit functionality rules); operation sequences over 3 elements per type as stated in coverage.rule; never counted as proof',
+            'the rules are taken from the FLAT-RULE COMMENTS the compiler writes above each emitted rule function (premise atoms incl. diagonal and type-range atoms; conclusions: tuple / equality / function defined), one per sub-rule family, ages dropped: the check decides "the closed model satisfies the flat rules", i.e. it covers sorting, index selection, RAM lowering, code generation, the semi-naive loop and the runtime, but NOT the front half (parsing, flattening of nested terms, equality elimination) -- a flattening defect changes the comment and the code alike',
+            'premises are matched against the iterators (canonical tuples), conclusions are checked with the point queries / are_equal_ / evaluation functions, after every close() and every close_until() == false',
+        ],
+    }
+
+
+class GenTwice:
+    """C20: the sweep of the emitted modules is run twice, in two processes; the digest of everything observed through the public API
+    (ids returned, iteration order of every iterator, query results, in observation order) must be identical"""
+    name = 'gen_twice'
+
+    def __init__(self):
+        self.gn = gen_native()
+        self._r = {}
+
+    def _digests(self, args):
+        out = []
+        for _ in range(2):
+            res, err = self.gn.run(args)
+            if err or not res or 'digest' not in res:
+                return None, err or 'no digest in the harness output'
+            out.append((res['digest'], res.get('evaluations', 0)))
+        return out, None
+
+    def sweep(self, tier):
+        if tier in self._r:
+            return self._r[tier]
+        import time
+        r = driver.PartResult(self.name, 'bounded')
+        t0 = time.time()
+        r.rule = ('the whole sweep of the emitted probe modules (all operation sequences of the gen harness, same seed) is executed twice in two separate processes; a digest of '
+                  'every element id returned, every iterator\'s output in iteration order and every query result, in observation order, must be equal; '
+                  'distinct/non-trivial as for the gen sweep')
+        try:
+            self.gn.build()
+        except Exception as e:      # noqa
+            r.status, r.reason = 'undecided', 'native-build-failed'
+            r.notes.append(str(e)[-1500:])
+            self._r[tier] = r
+            return r
+        args = self.gn.thorough_args if tier == 'thorough' else self.gn.quick_args
+        ds, err = self._digests(args)
+        r.wall_s = time.time() - t0
+        r.checker_cmd = 'native_gen %s  (twice, two processes)' % ' '.join(args)
+        if err:
+            r.status, r.reason = 'undecided', 'native-' + str(err).split(' ')[0]
+        else:
+            r.evaluations = ds[0][1] + ds[1][1]
+            r.distinct_nontrivial = ds[0][1]
+            r.exhaustive = False
+            r.notes.append('digests: %s %s' % (ds[0][0], ds[1][0]))
+            if ds[0][0] != ds[1][0]:
+                r.status = 'violation'
+                r.failures.append({'obligation': 'two runs of the same API call sequences produced different transcripts (digest %s vs %s)' % (ds[0][0], ds[1][0]), 'function': 'generated model',
+                                   'message': 'transcript digests differ between two processes -- nondeterministic', 'input': ' '.join(args), 'native': 'gen_twice', 'class': 'nondeterministic'})
+        self._r[tier] = r
+        return r
+
+    def replay(self, inp):
+        ds, err = self._digests(inp.split(' '))
+        if err:
+            return None, err
+        return ({'replay': 'fail' if ds[0][0] != ds[1][0] else 'pass', 'digests': [d[0] for d in ds]}, None)
+
+
+def C20():
+    return {
+        'level': 'exploration', 'parts': [GenTwice()], 'samples': [], 'routed_natives': (),
+        'assumptions': [
+            'bounded: programs are the probe theories; call sequences are those of the gen sweep; two runs in two processes on one machine (same binary): address-space layout and hashing seeds differ between the runs, time and thread scheduling are not varied on purpose',
+            'what is compared: element ids returned by new_/define_, the output of every iter_* in iteration order, counts, after every call -- through a 64-bit digest (a collision would hide a difference)',
+            'corollary from the proof units, not part of this check: every runtime operation under contract (C05, C08, C14) equals a mathematical function of its abstract arguments, so it cannot depend on addresses or hashing',
+        ],
     }
 
 
@@ -212,10 +296,12 @@ def sd_native():
 
 
 def C11():
+    from units import loc
     return {
-        'level': 'exploration', 'parts': [sd_native()], 'samples': [],
+        'level': 'exploration', 'parts': [sd_native(), ProofPart(loc, 'LOC')], 'samples': loc.SAMPLES,
         'assumptions': [
             'bounded and partial: only the diagnostic renderer (source_display.rs, Location::intersect, whipe_comments) is executed; the LALRPOP parser, Eqlog::close and semantics/*.rs are not covered',
+            'part LOC (proof): Location::is_empty / Location::intersect (real text) against interval intersection, with assumed specifications of std::cmp::max / min; it is the only function under the renderer that Verus can take',
             'the set of locations is an over-approximation of token spans derived from the text, not produced by the real lexer',
         ],
     }
@@ -233,9 +319,9 @@ def C18():
     }
 
 
-PROPERTIES = {'C03': C03, 'C04': C04, 'C05': C05, 'C06': C06, 'C07': C07, 'C14': C14, 'C08': C08, 'C16': C16, 'C18': C18, 'C11': C11}
+PROPERTIES = {'C20': C20, 'C01': C01, 'C03': C03, 'C04': C04, 'C05': C05, 'C06': C06, 'C07': C07, 'C14': C14, 'C08': C08, 'C16': C16, 'C18': C18, 'C11': C11}
 
-NATIVES = {'uf_0': lambda: uf_native(0), 'uf_1': lambda: uf_native(1), 'rt_wb': lambda: rt_native('wb'), 'rt_pt': lambda: rt_native('pt'), 'rt_ts': lambda: rt_native('ts'), 'sn': sn_native, 'sd': sd_native, 'gen': gen_native, 'emit_sn': emit_sn}
+NATIVES = {'uf_0': lambda: uf_native(0), 'uf_1': lambda: uf_native(1), 'rt_wb': lambda: rt_native('wb'), 'rt_pt': lambda: rt_native('pt'), 'rt_ts': lambda: rt_native('ts'), 'sn': sn_native, 'sd': sd_native, 'gen': gen_native, 'emit_sn': emit_sn, 'gen_twice': GenTwice}
 
 
 def replay(pid, path):
